@@ -101,7 +101,9 @@ int main(int argc,char **argv){
         /* does audio follow the target within the link the seek landed in?  (the lap code never spans links) */
         int landlink=(B.vf.ready_state>=3)?B.vf.current_link:-1;
         float **p; int bs=-1; long r=ov_read_float(&B.vf,&p,1,&bs);
-        int nothing_follows=(r<=0)||(landlink>=0&&bs!=landlink), no_state_at_end=(m==0);
+        /* "the handle has no decode state and is at end of stream": with a decoder set up (ready_state INITSET) the lap
+           data can always be taken (from pending samples or the decoder's overlap half), so EOF is not excused then */
+        int nothing_follows=(r<=0)||(landlink>=0&&bs!=landlink), no_state_at_end=(m==0&&oldrs!=4);
         if(rcA!=OV_EOF||!(nothing_follows||no_state_at_end)){ printf("prop lapeof FAIL rcA=%d follows=%d m=%ld\n",rcA,!nothing_follows,m); bad++; }
         eofs++;
         /* resynchronise */
